@@ -7,6 +7,7 @@ package main
 
 import (
 	"fmt"
+	"go/constant"
 	"go/token"
 	"go/types"
 	"sort"
@@ -144,11 +145,20 @@ var c17GetBodyOKFact = c13Fact{ID: "getbody-ok", Use: func(fn *ssa.Function, req
 }}
 
 // c17LengthFact: the body is not replayable (GetBody == nil) or req.ContentLength equals a descriptor's Size.
-var c17LengthFact = c13Fact{ID: "req-length", Use: func(fn *ssa.Function, req map[ssa.Value]bool, _ map[ssa.Value]int64) ([]Edge, []ssa.Value) {
-	gbNil, _, _ := NilTests(fn, c17ReqFieldLoads(fn, "GetBody", req))
-	eq, _ := c13EqualEdges(fn, c17ReqFieldLoads(fn, "ContentLength", req), c13FieldLoads(fn, c13PkgOCI, "Descriptor", "Size", nil))
-	return append(gbNil, eq...), nil
-}}
+var c17LengthFact c13Fact
+
+func init() {
+	c17LengthFact = c13Fact{ID: "req-length",
+		Aux: func(fn *ssa.Function) map[ssa.Value]bool {
+			return c13FieldLoads(fn, c13PkgOCI, "Descriptor", "Size", nil)
+		},
+		Use: func(fn *ssa.Function, req map[ssa.Value]bool, _ map[ssa.Value]int64) ([]Edge, []ssa.Value) {
+			gbNil, _, _ := NilTests(fn, c17ReqFieldLoads(fn, "GetBody", req))
+			// the expected size: a descriptor's Size in this function, or a parameter that received one
+			eq, _ := c13EqualEdges(fn, c17ReqFieldLoads(fn, "ContentLength", req), c13AuxOf(c17LengthFact, fn))
+			return append(gbNil, eq...), nil
+		}}
+}
 
 // c17GetBodySetFact / c17BodySetFact: req.GetBody was assigned / req.Body was replaced by a GetBody() result.
 var c17GetBodySetFact = c13Fact{ID: "getbody-set", Instrs: func(fn *ssa.Function, req map[ssa.Value]bool) []ssa.Instruction {
@@ -220,6 +230,7 @@ func c17R1Auth(c *Ctx) {
 	}
 	rcalls := c13CallsToFn(Do, RW)
 	senders := map[*ssa.Function]bool{}
+	c17NestedSenders = map[*ssa.Function]bool{}
 	pairs := 0
 	for i, s1 := range sends {
 		for j, s2 := range sends {
@@ -266,6 +277,21 @@ func c17R1Auth(c *Ctx) {
 	for n, r := range rcalls {
 		res := ErrFlow(r, ErrFlowOpts{})
 		c.Check(RA, fmt.Sprintf("%s|rewind#%d-error-returned", dn, n+1), r.Pos(), res.OK, res.How+res.Detail)
+	}
+	for h := range c17NestedSenders { // e.g. resend() used by answerBasic/answerBearer: its rewind error and its own error are returned
+		if senders[h] {
+			continue
+		}
+		for n, r := range c13CallsToFn(h, RW) {
+			res := ErrFlow(r, ErrFlowOpts{})
+			c.Check(RA, fmt.Sprintf("%s|rewind#%d-error-returned", FnName(h), n+1), r.Pos(), res.OK, res.How+res.Detail)
+		}
+		for g := range senders {
+			for _, hc := range c13CallsToFn(g, h) {
+				res := ErrFlow(hc, ErrFlowOpts{})
+				c.Check(RA, fmt.Sprintf("%s|%s-error-returned", FnName(g), FnName(h)), hc.Pos(), res.OK, res.How+res.Detail)
+			}
+		}
 	}
 	for g := range senders {
 		for n, r := range c13CallsToFn(g, RW) {
@@ -317,6 +343,9 @@ func c17R1Auth(c *Ctx) {
 // c17RewindingSender: every send in g is preceded, on every path from g's
 // entry, by the success edge of the rewind helper applied to the very request
 // being sent (or goes through another rewinding sender).
+// c17NestedSenders collects the rewinding senders found below the ones Do calls (reset by c17R1Auth).
+var c17NestedSenders map[*ssa.Function]bool
+
 func c17RewindingSender(g *ssa.Function, RW *ssa.Function, depth int) (bool, string) {
 	sends := c13SendSites(g)
 	if len(sends) == 0 {
@@ -326,6 +355,9 @@ func c17RewindingSender(g *ssa.Function, RW *ssa.Function, depth int) (bool, str
 	for _, s := range sends {
 		if h := StaticCallee(s); h != nil && h != g && depth > 0 && inModule(h) && len(h.Blocks) > 0 {
 			if ok, _ := c17RewindingSender(h, RW, depth-1); ok {
+				if c17NestedSenders != nil {
+					c17NestedSenders[h] = true
+				}
 				continue
 			}
 		}
@@ -685,6 +717,42 @@ func c17PauseViaHelper(c *Ctx, R3, rn string, RT *ssa.Function, k ssa.CallInstru
 	c.Check(R3, rn+"|timer-is-policy-duration", k.Pos(), okDur, ifelse(okDur, "the helper's timer runs for its duration parameter, which is the duration the policy returned", "the pause is not the duration computed (and clamped) by the policy"))
 	// cancellation: the helper's Done case returns the context's error; the caller returns it and sends nothing more
 	errIdx := ErrResultIndex(h.Signature)
+	if rs := h.Signature.Results(); errIdx < 0 && rs.Len() == 1 && types.Identical(rs.At(0).Type(), types.Typ[types.Bool]) {
+		// predicate form: sleep(ctx, d) bool — false when the context ended; the caller returns ctx.Err() on false
+		okCancel := doneIdx >= 0
+		okOnly := timerIdx >= 0
+		doneE, f1 := selectCaseEdge(sel, doneIdx)
+		timerE, f2 := selectCaseEdge(sel, timerIdx)
+		if !f1 || !f2 {
+			okCancel, okOnly = false, false
+		} else {
+			for _, a := range RetAtoms(h, 0) {
+				cv, isConst := a.Val.(*ssa.Const)
+				mayTrue := !isConst || cv.Value == nil || cv.Value.Kind() != constant.Bool || constant.BoolVal(cv.Value)
+				if mayTrue && c13AtomReach(sel.Block(), instrIndex(sel)+1, a, newCut().Edges(timerE)) {
+					okOnly = false // true without the timer having fired
+				}
+				if mayTrue && c13AtomReach(doneE.To, 0, a, nil) {
+					okCancel = false // true although the context ended
+				}
+			}
+		}
+		te, fe := BoolTests(RT, Aliases(k.Value()))
+		if len(te) == 0 || !MustPassBetween(ki, Si, newCut().Edges(te...)) {
+			okCancel = false
+		}
+		for _, e := range fe {
+			if reach(e.To, 0, Si, nil) {
+				okCancel = false
+			}
+			if a := findNilReturnFrom(RT, e, 1, newCut(), map[ssa.Value]bool{}); a != nil && !isCtxErr(a.Val) {
+				okCancel = false
+			}
+		}
+		c.Check(R3, rn+"|cancel-ends-call", k.Pos(), okCancel, ifelse(okCancel, "on ctx.Done() the helper reports false; the caller then returns the context's error without a further round trip", "cancellation during the pause is not reported: the helper does not report it or the caller sends another request / returns nil"))
+		c.Check(R3, rn+"|only-timer-continues", sel.Pos(), okOnly, "the helper reports true only through the timer case")
+		return true
+	}
 	okCancel := errIdx >= 0 && doneIdx >= 0
 	if okCancel {
 		if e, found := selectCaseEdge(sel, doneIdx); found {
